@@ -12,7 +12,8 @@ open YaegiVerif.Expected.C04 (share)
 theorem share_assignCopies : share.assignCopies = true := rfl
 theorem share_multiTemps : share.multiTemps = true := rfl
 theorem share_multiDefineTemps : share.multiDefineTemps = true := rfl
-theorem share_multiDefineRedeclAssigns : share.multiDefineRedeclAssigns = false := rfl
+theorem share_multiDefineRedeclAssigns : share.multiDefineRedeclAssigns = true := rfl
+theorem share_multiDefineRedeclCopies : share.multiDefineRedeclCopies = true := rfl
 theorem share_defineFresh : share.defineFresh = true := rfl
 theorem share_callCopiesArgs : share.callCopiesArgs = true := rfl
 theorem share_rangeSnapshotsArray : share.rangeSnapshotsArray = true := rfl
@@ -24,7 +25,12 @@ theorem share_structLitSetsSlot : share.structLitSetsSlot = true := rfl
 theorem share_arrayLitSets : share.arrayLitSets = true := rfl
 theorem share_structLitAssignSets : share.structLitAssignSets = true := rfl
 theorem share_lookup2OnlyIfValid : share.lookup2OnlyIfValid = false := rfl
-theorem share_appendArgsAreSlots : share.appendArgsAreSlots = true := rfl
+theorem share_appendArgsAreSlots : share.appendArgsAreSlots = false := rfl
+theorem share_arrayLitFresh : share.arrayLitFresh = true := rfl
+theorem share_arrayLitAssignInPlace : share.arrayLitAssignInPlace = true := rfl
+theorem share_lookup2DefineFresh : share.lookup2DefineFresh = true := rfl
+theorem share_lookup2RedeclInPlace : share.lookup2RedeclInPlace = true := rfl
+theorem share_derefNilPanics : share.derefNilPanics = true := rfl
 
 theorem readSlots_ext {st st' : St} (h : Ext st st') : ∀ (ss : List Slot) (vs : List Val),
     readSlots st ss = .ok vs → readSlots st' ss = .ok vs := by
